@@ -229,7 +229,13 @@ func ParseVpsSpsPpsFromEnhancedSeqHeader(payload []byte) (vps, sps, pps []byte, 
 	packetType := payload[0] & 0x0f
 
 	if packetType == 0 {
-		return parseVpsSpsPpsFromRecord(payload)
+		// 注意，parseVpsSpsPpsFromRecord返回的是payload的切片。和ParseVpsSpsPpsFromSeqHeader一样，这里返回新申请的内存块，
+		// 调用方（比如rtmp转rtsp）会在payload被复用之后继续持有vps、sps、pps
+		vps, sps, pps, err = parseVpsSpsPpsFromRecord(payload)
+		if err != nil {
+			return nil, nil, nil, err
+		}
+		return append([]byte(nil), vps...), append([]byte(nil), sps...), append([]byte(nil), pps...), nil
 	}
 
 	return nil, nil, nil, nazaerrors.Wrap(base.ErrHevc)
